@@ -4,6 +4,7 @@ package main
 // are skipped, ordered grouping state, int-preserving accumulators).
 
 import (
+	"go/token"
 	"fmt"
 	"go/types"
 	"sort"
@@ -404,6 +405,7 @@ func runC10(c *Ctx, r *Report) {
 			}
 		}
 	}
+	c10InjectiveKeys(c, r)
 }
 
 // readsEntryKeys: does fn (or its static mlrval callees, depth 3) load MlrmapEntry.Key?
@@ -505,4 +507,119 @@ func rangedBuiltinMapFields(c *Ctx, tn *types.TypeName, fields []string) []strin
 	}
 	sort.Strings(out)
 	return out
+}
+
+// ---- R10.6 ------------------------------------------------------------------
+// Keys that stand for a list of values are injective.
+func c10InjectiveKeys(c *Ctx, r *Report) {
+	r.Rule("R10.6", "grouping and schema keys are injective: a string that stands for a list of a record's keys or values — the result of the Mlrmap …Joined accessors, or a strings.Join that is compared, stored as state or used as a map key in the writers and verbs — is not built by putting a constant separator between the raw elements (('x,y','z') and ('x','y,z') would be the same key); the accessors length-prefix each element")
+	n := 0
+	for _, fn := range c.ModuleFunctions() {
+		if fn.Pkg == nil {
+			continue
+		}
+		pp := fn.Pkg.Pkg.Path()
+		switch {
+		case strings.HasSuffix(pp, "/pkg/mlrval") && strings.Contains(fn.Name(), "Joined"):
+			n++
+			// a constant written inside a loop = a separator between raw elements
+			sep := ""
+			prefixed := false
+			var visit func(f *ssa.Function, depth int)
+			visit = func(f *ssa.Function, depth int) {
+				if f == nil || f.Blocks == nil || depth > 2 {
+					return
+				}
+				for _, b := range f.Blocks {
+					for _, in := range b.Instrs {
+						call, ok := in.(*ssa.Call)
+						if !ok {
+							continue
+						}
+						name := CalleeName(&call.Call)
+						if name == "strconv.Itoa" || name == "strconv.FormatInt" {
+							prefixed = true
+						}
+						if (strings.HasSuffix(name, ".WriteString") || strings.HasSuffix(name, ".WriteByte")) && len(call.Call.Args) == 2 && depth == 0 && blockReachesSelf(b) {
+							if k, ok := call.Call.Args[1].(*ssa.Const); ok {
+								sep = k.Value.String()
+							}
+						}
+						if sc := call.Call.StaticCallee(); sc != nil && IsModuleFunc(sc) && sc.Pkg == f.Pkg && !strings.Contains(sc.Name(), "String") {
+							visit(sc, depth+1)
+						}
+					}
+				}
+			}
+			visit(fn, 0)
+			r.Check(sep == "" || prefixed, "R10.6", SSAName(fn), c.Rel(fn.Pos()), "elements are length-prefixed",
+				fmt.Sprintf("%s joins raw elements with the constant separator %s: two different lists whose elements contain the separator give the same key, so distinct groups / schemas are merged", SSAName(fn), sep))
+		case strings.HasSuffix(pp, "/pkg/output") || strings.HasSuffix(pp, "/pkg/transformers"):
+			for _, b := range fn.Blocks {
+				for _, in := range b.Instrs {
+					call, ok := in.(*ssa.Call)
+					if !ok || CalleeName(&call.Call) != "strings.Join" || call.Referrers() == nil {
+						continue
+					}
+					if _, isConst := call.Call.Args[1].(*ssa.Const); !isConst {
+						continue
+					}
+					// only joins of a record's keys / values
+					src, ok := call.Call.Args[0].(*ssa.Call)
+					if !ok || !(strings.HasSuffix(CalleeName(&src.Call), ".GetKeys") || strings.Contains(CalleeName(&src.Call), "Values")) {
+						continue
+					}
+					usedAsKey := ""
+					var follow func(v ssa.Value, depth int)
+					follow = func(v ssa.Value, depth int) {
+						if depth > 3 || v.Referrers() == nil {
+							return
+						}
+						for _, ref := range *v.Referrers() {
+							switch x := ref.(type) {
+							case *ssa.BinOp:
+								if x.Op == token.EQL || x.Op == token.NEQ {
+									usedAsKey = "compared"
+								}
+							case *ssa.Lookup:
+								if x.Index == v {
+									usedAsKey = "map key"
+								}
+							case *ssa.MapUpdate:
+								if x.Key == v {
+									usedAsKey = "map key"
+								}
+							case *ssa.Store:
+								if x.Val == v {
+									if al, ok := x.Addr.(*ssa.Alloc); ok {
+										// a local cell (often &joined stored into a field): follow its loads and its address
+										for _, r2 := range *al.Referrers() {
+											if ld, ok := r2.(*ssa.UnOp); ok {
+												follow(ld, depth+1)
+											}
+											if st2, ok := r2.(*ssa.Store); ok && st2.Val == ssa.Value(al) {
+												usedAsKey = "kept as state"
+											}
+										}
+									} else {
+										usedAsKey = "kept as state"
+									}
+								}
+							case *ssa.Phi:
+								follow(x, depth+1)
+							}
+						}
+					}
+					follow(call, 0)
+					if usedAsKey == "" {
+						continue // printed in a message
+					}
+					n++
+					r.Fail("R10.6", fmt.Sprintf("%s: joined key list (%s)", SSAName(fn), usedAsKey), c.Rel(call.Pos()),
+						fmt.Sprintf("%s joins a record's keys or values with a constant separator and uses the result as an identity (%s): different lists can give the same string — use the length-prefixed Mlrmap.GetKeysJoined / GetSelectedValuesJoined", SSAName(fn), usedAsKey))
+				}
+			}
+		}
+	}
+	r.Floor("R10.6", "joined-key builders", n, 5)
 }
